@@ -359,8 +359,12 @@ func writeIfChanged(path, content string) (bool, error) {
 	return true, os.WriteFile(path, []byte(content), 0o644)
 }
 
+// types whose String table was taken from String() outputs because the source shape was not recognised
+var behaviouralShapes []string
+
 // renderStringsLean: FitModel/Gen/Strings.lean from the extracted constants and String shapes.
 func renderStringsLean() (map[string]string, error) {
+	behaviouralShapes = nil
 	types, err := strfacts.ParseTypes("/repo/types.go", "/repo/types_man.go")
 	if err != nil {
 		return nil, err
@@ -379,7 +383,25 @@ func renderStringsLean() (map[string]string, error) {
 	for _, t := range types {
 		sh, ok := shapes[t.Name]
 		if !ok {
-			return nil, fmt.Errorf("type %s has no generated String method", t.Name)
+			// The String method exists but is not of a shape the extractor reads (the stringer's output
+			// was restructured). Fall back to the table the code itself defines on the named values:
+			// value -> what String() returns. The kernel still checks every entry against the constant
+			// names of types.go; that values outside the table print Type(n) is then decided by the
+			// exhaustive String() run alone (no structural reading of the default branch).
+			fn, have := stringers[t.Name]
+			if !have {
+				return nil, fmt.Errorf("type %s has no generated String method", t.Name)
+			}
+			sh = strfacts.Shape{Type: t.Name, Kind: "map"}
+			seen := map[int64]bool{}
+			for _, c := range t.Consts {
+				if !seen[c.Value] {
+					seen[c.Value] = true
+					sh.Map = append(sh.Map, strfacts.MapEntry{Key: c.Value, Str: guarded(func() string { return fn(c.Value) })})
+				}
+			}
+			sort.Slice(sh.Map, func(a, b int) bool { return sh.Map[a].Key < sh.Map[b].Key })
+			behaviouralShapes = append(behaviouralShapes, t.Name)
 		}
 		id := "t_" + t.Name
 		names = append(names, id)
@@ -511,6 +533,10 @@ func cmdFacts(args []string) int {
 			fmt.Fprintln(os.Stderr, "facts:", err)
 			return 2
 		}
+	}
+	if len(behaviouralShapes) > 0 {
+		fmt.Printf("facts: String tables of %d types taken from String() outputs (source shape not recognised): %s\n",
+			len(behaviouralShapes), strings.Join(behaviouralShapes, ","))
 	}
 	return 0
 }
